@@ -31,7 +31,7 @@ THEOREMS = [
 RULE = ("cases = scheduler flavour (AsyncIOScheduler / thread-safe) x immediate|relative schedule x how it was scheduled (loop "
         "callback / other thread while the loop runs / before the loop started) x who disposes (loop callback / other "
         "thread while the loop runs / thread while the loop is not running: never started, or stopped after running and "
-        "restarted after the return) x delay x gap between "
+        "restarted after the return) x delay (whole ticks, sub-millisecond fractions, zero/negative through schedule_relative) x gap between "
         "schedule and dispose (before, at, after the due time) x schedule (start thread + <=3 preemptions at generated "
         "yield points); non-trivial = a preemption switched threads, or the dispose happened while the loop had work of "
         "this action pending; distinct by canonical JSON. search (coverage.search_*): exhaustive enumeration of <=2 "
@@ -82,9 +82,13 @@ def cases(rng, tier):
     base = {}
     for _ in range(n):
         fl, kind, smode, mode = rng.choice(CFGS + [c for c in CFGS if c[0] == "ts" and c[1] == "rel" and c[3] != "onLoop"] * 3)
-        delay = rng.choice([1, 2, 3])
-        gap = rng.choice([0, 0, delay - 1, delay, delay + 1]) if not (mode == "notRunning" and smode == "pre") else 0
+        delay = rng.choice([1, 2, 3, 2, 0.0004, 1.0005, 2.25])  # also delays that are not whole milliseconds
+        gap = rng.choice([0, 0, int(delay) - 1, int(delay), int(delay) + 1]) if not (mode == "notRunning" and smode == "pre") else 0
         sc = scenario(fl, kind, smode, mode, delay, max(0, gap))
+        if kind == "soon" and rng.random() < 0.5:
+            sc["via"], sc["delay0"] = "rel", rng.choice([0.0, -1.0, "td0"])
+        if fl == "ts" and "foreign" in (smode, mode) and rng.random() < 0.5:
+            sc["registered"] = True
         k = fw.key(sc)
         if k not in base:
             base[k] = A.run_case(dict(sc, first=0, pre=[]))["steps"]
@@ -152,6 +156,8 @@ def verdict(case, out):
     for s in out["starts"]:
         if s["thread"] != 0:
             return ("bad", f"action ran on thread {s['thread']}, not on the loop thread")
+        if s.get("inside_schedule_call"):
+            return ("bad", "action ran synchronously inside the schedule call instead of being posted to the loop")
         if case["kind"] == "rel" and s["clock"] < out["sched_clock"] + out["delay"]:
             return ("bad", f"action started at clock {s['clock']} before its due time {out['sched_clock'] + out['delay']}")
         if s["after_return"]:
@@ -210,6 +216,13 @@ def extra(rng, tier):
         gaps = [0] if (mode == "notRunning" and smode == "pre") else ([0, 1, 3] if kind == "rel" else [0, 1])
         for g in gaps:
             scs.append(scenario(fl, kind, smode, mode, 2, g))
+        if kind == "soon":  # already-due relative schedule (delay <= 0)
+            scs.append(dict(scenario(fl, kind, smode, mode, 2, 0), via="rel", delay0=rng.choice([0.0, -1.0, "td0"])))
+        if kind == "rel":   # a delay that is not a whole number of milliseconds
+            scs.append(scenario(fl, kind, smode, mode, rng.choice([0.0004, 1.0005]), 2 if mode != "notRunning" or smode != "pre" else 0))
+        if fl == "ts" and kind == "rel" and mode == "foreign":  # the disposing thread has the loop registered as its current loop
+            for g in (0, 1):
+                scs.append(dict(scenario(fl, kind, smode, mode, 2, g), registered=True))
     # the two threads only interact when another thread disposes while the loop runs: deep enumeration there;
     # for dispose-on-loop / loop-not-running the user thread merely posts callbacks (single preemptions suffice)
     foreign = [sc for sc in scs if sc["mode"] == "foreign"]
